@@ -6,7 +6,14 @@ import (
 	"bytes"
 	"encoding/binary"
 	"fmt"
+	"net"
 	"testing"
+	"time"
+
+	"github.com/free5gc/go-gtp5gnl"
+	"github.com/free5gc/go-upf/internal/verif/fullstack"
+	"github.com/free5gc/go-upf/internal/verif/gtpref"
+	"github.com/free5gc/go-upf/internal/verif/stack"
 
 	"pgregory.net/rapid"
 
@@ -212,6 +219,58 @@ func payload(n int, salt byte) []byte {
 	return p
 }
 
+// writePacket drives the real Gtp5g.WritePacket (the assembly site for buffered packets) over a loopback socket.
+func writePacket(t *testing.T) {
+	n, err := stack.ReserveNet(stack.Net2FromEnv(114))
+	if err != nil {
+		t.Fatalf("infrastructure: %v", err)
+	}
+	d, err := fullstack.NewDriver(fullstack.Opts{GtpuAddr: n.IP(1) + ":2152", NoMcast: true})
+	if err != nil {
+		t.Fatalf("infrastructure: %v", err)
+	}
+	defer d.Close()
+	gnb, err := stack.NewSock(n.IP(10), 2152)
+	if err != nil {
+		t.Fatalf("infrastructure: %v", err)
+	}
+	defer gnb.Conn.Close()
+	for _, teid := range []uint32{0, 1, 0x80000000, 0xffffffff} {
+		for qfi := -1; qfi < 64; qfi++ {
+			for _, l := range []int{0, 1, 3, 4, 5, 1400, 1401} {
+				far := &gtp5gnl.FAR{Param: &gtp5gnl.ForwardParam{Creation: &gtp5gnl.HeaderCreation{Desc: 0x0100, TEID: teid, PeerAddr: net.ParseIP(n.IP(10)).To4(), Port: 2152}}}
+				var qer *gtp5gnl.QER
+				if qfi >= 0 {
+					qer = &gtp5gnl.QER{QFI: uint8(qfi)}
+				}
+				pl := payload(l, byte(qfi))
+				c := Case{WithExt: qfi >= 0, QFI: uint8(max(qfi, 0)), TEID: teid, Payload: pl}
+				account(c)
+				vcore.E.Class("through_WritePacket")
+				if err := d.G.WritePacket(far, qer, pl); err != nil {
+					vcore.Report(t, vcore.Violatef("writepacket-error", "WritePacket: %v", err), c)
+					continue
+				}
+				b, err := gnb.RecvTimeout(5 * time.Second)
+				if err != nil {
+					vcore.Report(t, vcore.Violatef("writepacket-lost", "re-injected packet did not arrive: %v", err), c)
+					continue
+				}
+				p, derr := gtpref.Decode(b)
+				if derr != nil {
+					vcore.Report(t, vcore.Violatef("malformed", "WritePacket: reference decoder rejects the datagram: %v", derr), c)
+					continue
+				}
+				q, has := p.QFI()
+				if p.Version != 1 || p.PT != 1 || p.Type != 255 || p.TEID != teid || !bytes.Equal(p.Payload, pl) || has != (qfi >= 0) || (has && int(q) != qfi) {
+					vcore.Report(t, vcore.Violatef("writepacket-fields", "WritePacket(teid %#x, qfi %d, %d payload bytes) produced version %d pt %d type %d teid %#x qfi %d (present %v) payload %d bytes",
+						teid, qfi, l, p.Version, p.PT, p.Type, p.TEID, q, has, len(p.Payload)), c)
+				}
+			}
+		}
+	}
+}
+
 func TestC14(t *testing.T) {
 	files, explicit := vcore.ReplayFiles()
 	for _, f := range files {
@@ -252,6 +311,10 @@ func TestC14(t *testing.T) {
 		}
 	}
 	vcore.E.SetExtra("exhaustive_core", "QFI 0..63 x PDU type 0..15 x {ext,no ext} x listed payload lengths x 4 TEIDs enumerated completely")
+
+	if !vcore.Thorough() || vcore.Cfg.Shard == 0 {
+		writePacket(t)
+	}
 
 	// random part
 	vcore.Check(t, vcore.N(20000, 400000), func(rt *rapid.T) {
